@@ -14,5 +14,5 @@ Definition xmain_table : list xlang := Eval vm_compute in map xlang_of main_tabl
 (* specification side of the theorems, run by the check against pyexpat: hypotheses and infoset of a root element *)
 Definition spec_doc (l : xlang) (g : gen_type) (indent : N) (keep_ws : bool) (root : node) : bool * bool * option (list xitem) :=
   let o := opts_of_params g indent keep_ws in
-  (lang_ok l, node_ok l o PRoot None root, info_node l o PRoot None root).
+  (lang_ok l, node_ok l o proot None root, info_node l o proot None root).
 Extraction "model.ml" xmain_table enc_xml read_xml_auto unescape escape spec_doc.
